@@ -166,3 +166,31 @@ def compare_columns(got_cols, exp_cols):
                 if k >= 3:
                     break
     return bad
+
+
+def norm_entry_value(v):
+    """Plain value of one field of a single entry (table[i] or an element of iteration)."""
+    tname = type(v).__name__
+    if hasattr(v, "__dataclass_fields__"):
+        return [(f, norm_entry_value(getattr(v, f))) for f in v.__dataclass_fields__]
+    if tname == "EncodedArray":
+        return v.to_string()
+    if tname == "StringArray":
+        x = v.tolist()
+        return x if isinstance(x, str) else str(x)
+    if isinstance(v, np.ndarray):
+        if v.ndim == 0:
+            return v.item() if v.dtype.kind != "S" else v.item().decode()
+        return v.tolist()
+    if isinstance(v, (np.generic,)):
+        x = v.item()
+        return x.decode() if isinstance(x, bytes) else x
+    if isinstance(v, bytes):
+        return v.decode()
+    if hasattr(v, "tolist"):
+        return v.tolist()
+    return v
+
+
+def norm_scalar(v):
+    return norm_entry_value(v)
